@@ -23,8 +23,54 @@ impl Name {
             self.wf() ==> r.wf(),
     { unimplemented!() }
 }
+// m is the ASCII-lower-cased copy of n (RFC 4034 6.2): same label boundaries, every octet folded
+pub open spec fn is_lower_of(m: Name, n: Name) -> bool {
+    &&& m.label_ends@ == n.label_ends@
+    &&& m.label_data@.len() == n.label_data@.len()
+    &&& forall|i: int| 0 <= i < n.label_data@.len() ==> m.label_data@[i] == lower(#[trigger] n.label_data@[i])
+}
+// a label's wire octets lie below the start of every later label: rewriting the buffer from there on keeps it
+pub proof fn lemma_wire_label_frame(n: &Name, b0: Seq<u8>, b1: Seq<u8>, off: int, j: int, k: int, lim: int)
+    requires n.wf(), 0 <= j < k <= n.nlabels(), off >= 0, n.wire_label_ok(b0, off, j),
+        lim == off + k + n.lstart(k), lim <= b1.len(), lim <= b0.len(),
+        forall|i: int| 0 <= i < lim ==> b1[i] == b0[i],
+    ensures n.wire_label_ok(b1, off, j)
+{
+    reveal(Name::wire_label_ok);
+    assert(n.lstart(j) <= n.label_ends@[j] as int <= n.label_data@.len());
+    assert(n.lstart(j + 1) == n.lend(j));
+    if j + 1 < k { lemma_lstart_mono(n, j + 1, k); }
+    let p = off + j + n.lstart(j);
+    let l = n.lend(j) - n.lstart(j);
+    assert(p + 1 + l <= lim);
+    assert(b1.subrange(p + 1, p + 1 + l) =~= b0.subrange(p + 1, p + 1 + l));
+}
+// the octets emit_character_data lays down for label k are its wire form
+pub proof fn lemma_wire_label_new(n: &Name, b1: Seq<u8>, off: int, k: int, lbl: Seq<u8>)
+    requires n.wf(), 0 <= k < n.nlabels(), off >= 0, lbl == n.label(k),
+        off + k + n.lstart(k) + 1 + lbl.len() <= b1.len(),
+        b1[off + k + n.lstart(k)] as int == lbl.len(),
+        forall|i: int| 0 <= i < lbl.len() ==> b1[off + k + n.lstart(k) + 1 + i] == lbl[i],
+    ensures n.wire_label_ok(b1, off, k)
+{
+    reveal(Name::wire_label_ok);
+    assert(n.lstart(k) <= n.label_ends@[k] as int <= n.label_data@.len());
+    let p = off + k + n.lstart(k);
+    let l = n.lend(k) - n.lstart(k);
+    assert(b1.subrange(p + 1, p + 1 + l) =~= n.label(k));
+}
+// the wire form depends on the views of the two vectors only
+pub proof fn lemma_wire_at_same_views(m: &Name, n: &Name, b: Seq<u8>, off: int)
+    requires n.wire_at(b, off), m.label_ends@ == n.label_ends@, m.label_data@ =~= n.label_data@
+    ensures m.wire_at(b, off)
+{
+    reveal(Name::wire_label_ok);
+    assert forall|j: int| 0 <= j < m.nlabels() implies #[trigger] m.wire_label_ok(b, off, j) by {
+        assert(n.wire_label_ok(b, off, j));
+    }
+}
 pub proof fn lemma_lstart_mono(n: &Name, a: int, b: int)
-    requires n.wf(), 0 <= a < b < n.nlabels()
+    requires n.wf(), 0 <= a < b <= n.nlabels()
     ensures a + n.lstart(a) < b + n.lstart(b)
     decreases b - a
 {
@@ -59,6 +105,15 @@ impl Name {
             r is Ok && !(old(encoder).name_encoding is Compressed) ==> final(encoder).offset == old(encoder).offset + self.enc_len(),
             // C02: a name never takes more than 255 octets on the wire, compressed or not
             r is Ok ==> final(encoder).offset <= old(encoder).offset + 255,
+            // C02/C04 (wire round trip, encoder half): whenever no compression pointer may be used -- RDATA of
+            // non-compressible types, canonical form, or past the per-message compression budget -- the octets
+            // written ARE the RFC 1035 3.1 wire form of this name, letter case included (of its lower-cased copy
+            // in the RFC 4034 6.2 canonical mode); name_read::lemma_wire_roundtrip decodes them back to the same labels
+            r is Ok && (old(encoder).name_encoding is Uncompressed
+                        || (old(encoder).name_encoding is Compressed && old(encoder).compressed_name_count >= COMPRESSED_NAME_LIMIT))
+                ==> self.wire_at(final(encoder).bytes(), old(encoder).offset as int),
+            r is Ok && (old(encoder).name_encoding is UncompressedLowercase)
+                ==> forall|m: Name| is_lower_of(m, *self) ==> #[trigger] m.wire_at(final(encoder).bytes(), old(encoder).offset as int),
             // C02 (every name that can exist encodes): the length check rejects only names longer than 255 octets
             r matches Err(ProtoError::Decode(DecodeError::DomainNameTooLong(_))) ==> self.enc_len() > 255,
 //%entry
@@ -86,12 +141,25 @@ impl Name {
                 // label j starts at enc0.offset + j + (octets of labels before it)
                 forall|j: int| 0 <= j < vp_it.index@ ==> (#[trigger] labels_written@[j]) as int == enc0.offset + j + name_ref.lstart(j),
                 encoder.offset == enc0.offset + vp_it.index@ + name_ref.lstart(vp_it.index@ as int),
+                forall|j: int| 0 <= j < vp_it.index@ ==> #[trigger] name_ref.wire_label_ok(encoder.bytes(), enc0.offset as int, j),
 //%after "for label in labels {"
             proof {
                 let k = vp_it.index@;
                 assert(label@ == name_ref.label(k));
                 assert(name_ref.lstart(k) <= name_ref.label_ends@[k] as int <= name_ref.label_data@.len());
                 axiom_as_ref_slice(label);
+            }
+//%before "labels_written.push(encoder.offset);"
+            let ghost enc_b = *encoder;
+//%after "encoder.emit_character_data(label)?;"
+            proof {
+                let k = vp_it.index@ as int;
+                let off = enc0.offset as int;
+                let b1 = encoder.bytes();
+                lemma_wire_label_new(name_ref, b1, off, k, label@);
+                assert forall|j: int| 0 <= j < k implies #[trigger] name_ref.wire_label_ok(b1, off, j) by {
+                    lemma_wire_label_frame(name_ref, enc_b.bytes(), b1, off, j, k, enc_b.offset as int);
+                }
             }
 //%after "let last_index = encoder.offset;"
         assert(last_index == enc0.offset + nl + name_ref.label_data@.len());
@@ -176,6 +244,25 @@ impl Name {
             }
         }
         assert(enc0.wf_ptrs() ==> encoder.ptr_prefix_of(enc0));
+        let ghost enc2 = *encoder;
+//%before "let length = encoder.len() - buf_len;"
+        proof {
+            // no pointer was written on this path: labels as laid down by the first loop, then the root octet
+            let off = enc0.offset as int;
+            let b2 = encoder.bytes();
+            assert(enc2.bytes() == enc1.bytes() && enc2.offset == last_index);
+            assert forall|j: int| 0 <= j < nl implies #[trigger] name_ref.wire_label_ok(b2, off, j) by {
+                lemma_wire_label_frame(name_ref, enc1.bytes(), b2, off, j, nl, last_index as int);
+            }
+            assert(name_ref.wire_at(b2, off));
+            if enc0.name_encoding is UncompressedLowercase {
+                assert forall|m: Name| is_lower_of(m, *self) implies #[trigger] m.wire_at(b2, off) by {
+                    assert(m.label_data@ =~= name_ref.label_data@);
+                    lemma_wire_at_same_views(&m, name_ref, b2, off);
+                }
+            }
+        }
+//%mutant root_octet_nonzero "0u8.emit(encoder)?;" => "1u8.emit(encoder)?;"
 //%end
 }
 } // verus!
